@@ -34,7 +34,8 @@ SanAll  == <<G("rfc822", "$m1", <<>>, ""), G("dns", "$d1", <<>>, ""), G("uri", "
              G("ip", "", <<10, 1, 2, 3>>, ""),
              G("ip", "", <<32, 1, 13, 184, 0, 0, 0, 0, 0, 0, 0, 0, 0, 0, 0, 1>>, ""),
              G("ip", "", <<0, 0, 0, 0, 0, 0, 0, 0, 0, 0, 255, 255, 192, 0, 2, 9>>, ""),
-             G("other", "$upn", <<>>, "1.3.6.1.4.1.311.20.2.3")>>
+             G("other", "$upn", <<>>, "1.3.6.1.4.1.311.20.2.3"),
+             G("other", "$upn2", <<>>, "1.3.6.1.4.1.18446744073709551615.2")>>
 
 St(v, val) == [v |-> v, val |-> val, b |-> <<>>, dn |-> <<>>, prefix |-> None, mask |-> <<>>]
 StIp(addr, p) == [v |-> "ip", val |-> "", b |-> addr, dn |-> <<>>, prefix |-> Some(p), mask |-> <<>>]
@@ -125,7 +126,9 @@ NcCases == { Case("nc", [Base EXCEPT !.isCa = CaU, !.nc = [k |-> "some", perm |-
                   TRUE, "ed25519", "ed25519", Kid("sha256"), "keypair") : st \in SubtreeVariants, side \in {"perm", "excl"} }
 
 DnKinds == {"utf8", "printable", "ia5", "teletex", "bmp", "universal"}
-DnTypes == {"2.5.4.6", "2.5.4.7", "2.5.4.8", "2.5.4.10", "2.5.4.11", "2.5.4.3", "1.2.3.4.5.6", "2.999.1.2", "2.40.3", "0.9.2342.19200300.100.1.25"}
+(* arcs at the limits of 64 bit arithmetic (2^64 - 1, 2^64 - 128, 2^57 and 2^57 - 1: the last value that may still be shifted by 7) *)
+DnTypes == {"2.5.4.6", "2.5.4.7", "2.5.4.8", "2.5.4.10", "2.5.4.11", "2.5.4.3", "1.2.3.4.5.6", "2.999.1.2", "2.40.3", "0.9.2342.19200300.100.1.25",
+            "1.2.18446744073709551615", "1.2.18446744073709551488.1", "1.2.144115188075855872", "1.2.144115188075855871.5", "2.18446744073709551534"}
 DnCases == { Case("dn", [Base EXCEPT !.dn = <<E(ty, kind, "$v")>>], self, "ed25519", "ed25519", Kid("sha256"), "keypair") :
                ty \in DnTypes, kind \in DnKinds, self \in Bool }
            \cup { Case("dn", [Base EXCEPT !.dn = DnMulti], self, "ed25519", "ed25519", Kid("sha256"), "keypair") : self \in Bool }
